@@ -23,6 +23,18 @@ CHECKS = {
    note="Trusted: the projection param_abs (reads p.__dict__, has_parameter_data, scaled_parameters). Mechanism fields (instance hooks) are compared as model drift only; the gating clauses are those of the property. Module pickling after a Transform is outside the spec (module not picklable).",
    technique="TLA+ state machine + TLC exhaustive histories; trace validation of replayed histories",
    design="4/C09"),
+ "C10": dict(
+   spec="spec/Optim.tla, Optim_MC.tla, Optim_Eval.tla, Rat.tla",
+   text="TLC enumerates every (optimizer, readout, tag, shape, depth, lr given, untagged allowed) over small dims as states of Optim_MC (41k), checks that the case analysis LrFactor2 is total, that errors occur exactly where stated, SGD-without-readout = Adam, the Adam/SGD mirror rule and the C12 identity, and emits each state with its expected squared factor (exact rational). Every emitted state is replayed on the real scaled_parameters and SGD/Adam/AdamW constructors (bare list, generator, explicit groups with own/global lr; float, float32- and float64-tensor lr; several parameters sharing one lr in one call); shapes up to 4096 and depths up to 1024 are evaluated point-wise by TLC (Optim_Eval).",
+   note="Trusted: float(lr_out)/lr_in squared compared with the spec's rational at 1e-12 (5e-7 for float32 tensors). The SGD/output-scaled rule for bias/norm is compared for 1-D shapes only ('length' is ambiguous otherwise).",
+   technique="TLA+ case-analysis spec + TLC enumeration; replay of TLC-emitted cases into the real optimizers",
+   design="4/C10"),
+ "C11": dict(
+   spec="spec/Optim.tla, Optim_MC.tla, Optim_Eval.tla",
+   text="scaled_parameters is specified as a loop over groups with learning-rate cells (a tensor lr is a heap cell with identity). TLC runs it step by step on every input with <= 2 groups x <= 2 parameters (lr absent/float/tensor/shared tensor, weight decay absent/explicit 0/value, extra keys, tagged/untagged, both flags; 723k states) and checks order, one-per-group, no aliasing, caller untouched, error outcomes, and refutes the two aliasing deviations (pre-fix code). Terminal states emitted by TLC are rebuilt from real objects and compared field by field with the real result (scaled_parameters and the optimizer classes; groups, bare lists, generators); random inputs with up to 6 groups x 5 parameters are evaluated point-wise by TLC; real SGD/AdamW zero-gradient steps are compared with the spec's DecayFactor.",
+   note="Trusted: projection by id(); tagged parameters are 'weight' (4,4) in the structural replay (Adam factor 1/2) so that in-place scaling of a caller tensor is visible; zero-gradient step compared at 1e-12.",
+   technique="TLA+ loop state machine with heap cells + TLC; replay of TLC-emitted inputs; real optimizer steps",
+   design="4/C11"),
 }
 CHECKS = dict(sorted(CHECKS.items()))
 
